@@ -1,5 +1,6 @@
 import Driver.Ops.Run
 import Driver.Ops.Balance
+import Driver.Ops.Register
 import Driver.Ops.Rematch
 import Driver.Ops.Audit
 import Driver.Ops.Equity
@@ -13,6 +14,8 @@ open Lean Tackler Codec
 def outputTable : List (String × Ops.OutputFn) := [
   ("txns", Ops.outTxns),
   ("balance", Ops.outBalance),
+  ("register", Ops.outRegister),
+  ("register_all", Ops.outRegisterAll),
   ("equity", Ops.outEquity)
 ]
 
